@@ -630,6 +630,10 @@ def shard_adv(ctx, spec):
         rng = ctx.sub_rng("c04/adv/%d" % i)
         label = "adv-%d" % i
         mix = c11.Mix(_NullCtx(), rng, label, n_events)
+        if ctx.quick:
+            # 40 concurrent transactions with multi-kilobyte contexts are C11's business; the
+            # digest of every context after every event dominates the model driver's time
+            mix.target_live = min(mix.target_live, 12)
         # re-attach OUR oracle to the lock of the generator
         orc = Oracle(ctx, mix.L, label, tight=False)
         mix.L.label = label
